@@ -9,6 +9,7 @@
 //!   binary-encode <json file>    Serializer (compression off, custom database) on a DOM built from bit patterns, then read back
 //!   binary-compress-scan         Folders named a^k written with LZ4 / Zstandard and read back (replay of framing findings)
 //!   binary-det <json file>       determinism replay: write, write with reversed property order, load + save again
+//!   binary-tree <json file>      forest with Ref / Content properties and service classes: written (selected roots) and read back
 //!   binary-write-sink <room>     rbx_binary::to_writer of a one-Folder DOM into a sink with room for <room> bytes
 use std::io::Read;
 
@@ -230,6 +231,11 @@ fn custom_database(spec: &Value) -> rbx_reflection::ReflectionDatabase<'static> 
     let mut db = ReflectionDatabase::new();
     for (cname, c) in spec.as_object().unwrap() {
         let mut cd = ClassDescriptor::new(cname.clone());
+        for t in c.get("tags").and_then(|t| t.as_array()).cloned().unwrap_or_default() {
+            if t == "Service" {
+                cd.tags.insert(ClassTag::Service);
+            }
+        }
         if let Some(s) = c.get("superclass").and_then(|s| s.as_str()) {
             cd.superclass = Some(s.to_string().into());
         }
@@ -422,6 +428,58 @@ pub fn main(args: &[String]) {
                 .compression_type(rbx_binary::CompressionType::None)
                 .serialize(&mut out, &dom, &refs);
             match r {
+                Err(e) => println!("{}", json!({"write_err": e.to_string()})),
+                Ok(()) => match rbx_binary::Deserializer::new().reflection_database(&db).deserialize(&out[..]) {
+                    Ok(back) => println!("{}", json!({"file": hex(&out), "decoded": tree_view(&back)})),
+                    Err(e) => println!("{}", json!({"file": hex(&out), "read_err": e.to_string()})),
+                },
+            }
+        }
+        "binary-tree" => {
+            // {"db":..., "nodes":[{"class","parent": idx|null, "ref": T?, "content": T?}], "roots":[idx..]} with T = {"node":k} | {"none":1} |
+            // {"outside":1} | {"uri":[bytes]}: the forest is written (selected roots only) and read back
+            let spec: Value = serde_json::from_str(&std::fs::read_to_string(&args[1]).unwrap()).unwrap();
+            let db = custom_database(&spec["db"]);
+            let mut dom = rbx_dom_weak::WeakDom::new(rbx_dom_weak::InstanceBuilder::new("DataModel"));
+            let root = dom.root_ref();
+            let outside = dom.insert(root, rbx_dom_weak::InstanceBuilder::new("Outside"));
+            let mut refs: Vec<Ref> = Vec::new();
+            let nodes = spec["nodes"].as_array().unwrap();
+            for (i, n) in nodes.iter().enumerate() {
+                let parent = match n["parent"].as_u64() {
+                    Some(k) => refs[k as usize],
+                    None => root,
+                };
+                refs.push(dom.insert(parent, rbx_dom_weak::InstanceBuilder::new(n["class"].as_str().unwrap()).with_name(format!("N{}", i + 1))));
+            }
+            let target = |t: &Value| -> Ref {
+                if let Some(k) = t.get("node").and_then(|k| k.as_u64()) {
+                    refs[k as usize]
+                } else if t.get("outside").is_some() {
+                    outside
+                } else {
+                    Ref::none()
+                }
+            };
+            for (i, n) in nodes.iter().enumerate() {
+                if let Some(t) = n.get("ref").filter(|t| !t.is_null()) {
+                    dom.get_by_ref_mut(refs[i]).unwrap().properties.insert("R".into(), Variant::Ref(target(t)));
+                }
+                if let Some(t) = n.get("content").filter(|t| !t.is_null()) {
+                    let c = if let Some(u) = t.get("uri") {
+                        Content::from_uri(string(u))
+                    } else if t.get("none").is_some() {
+                        Content::none()
+                    } else {
+                        Content::from_referent(target(t))
+                    };
+                    dom.get_by_ref_mut(refs[i]).unwrap().properties.insert("C".into(), Variant::Content(c));
+                }
+            }
+            let roots: Vec<Ref> = spec["roots"].as_array().unwrap().iter().map(|k| refs[k.as_u64().unwrap() as usize]).collect();
+            let mut out = Vec::new();
+            let w = rbx_binary::Serializer::new().reflection_database(&db).compression_type(rbx_binary::CompressionType::None).serialize(&mut out, &dom, &roots);
+            match w {
                 Err(e) => println!("{}", json!({"write_err": e.to_string()})),
                 Ok(()) => match rbx_binary::Deserializer::new().reflection_database(&db).deserialize(&out[..]) {
                     Ok(back) => println!("{}", json!({"file": hex(&out), "decoded": tree_view(&back)})),
